@@ -111,6 +111,13 @@ fn gen(g: &mut G, thorough: bool) -> Plan {
         body.payload = payload;
         g.probe("coded-body-under-a-deadline");
     }
+    // (no draw) a chunked response that also carries a Content-Length (of nothing, or of something else):
+    // chunked decides, and the body is under the deadline like any other
+    if body.framing == Framing::Chunked && body.payload.len() % 3 == 1 {
+        let v = [0usize, 0, body.payload.len() / 2][body.payload.len() % 3 + (body.payload.len() / 3) % 3 - 1].to_string();
+        body.insert_head_field("Content-Length", &v);
+        g.probe("chunked-body-next-to-a-content-length");
+    }
     body.faults = ConnFaults { window: 64 * 1024, coalesce: g.chance(1, 4), timeout_is_timed_out: g.chance(1, 3), ..Default::default() };
     body.host_is_domain = g.chance(1, 2);
     if !matches!(body.read_mode, bodyx::ReadMode::Sizes(..)) {
